@@ -100,6 +100,7 @@ type thread struct {
 	parked     bool
 	done       bool
 	dying      bool
+	gid        uint64              // goroutine id of the thread\'s current goroutine (norace)
 	retired    bool                // its goroutine exited (after a panic or kill); respawn before re-use
 	job        atomic.Pointer[job] // published by the scheduler (release), loaded by the thread (acquire)
 	finished   atomic.Uint64       // run number the thread last finished (release), read by the scheduler (acquire)
@@ -153,8 +154,46 @@ func setSim(s *Sim) { theSim = s }
 //go:norace
 func getSim() *Sim { return theSim }
 
+// hookActive reports whether the calling goroutine is the running simulated
+// thread. A goroutine the code under test started on its own is not: it gets the
+// real sync behaviour (and is still watched by the race detector), so that it
+// cannot corrupt the hand-off protocol; a run in which that happens is no longer
+// an exact function of its choice list.
+//
 //go:norace
-func hookActive() bool { s := theSim; return s != nil && s.running }
+func hookActive() bool {
+	s := theSim
+	if s == nil || !s.running || s.cur == nil {
+		return false
+	}
+	if simsync.SpawnsGoroutines && curGID() != s.cur.gid {
+		foreign++
+		return false
+	}
+	return true
+}
+
+var foreign int64
+
+// ForeignCalls reports how many simsync calls came from goroutines the
+// simulator does not control.
+//
+//go:norace
+func ForeignCalls() int64 { return foreign }
+
+// curGID returns the calling goroutine's id (from the header of its stack trace).
+//
+//go:norace
+func curGID() uint64 {
+	var buf [40]byte
+	n := runtime.Stack(buf[:], false)
+	// "goroutine 123 [running]:"
+	var id uint64
+	for i := len("goroutine "); i < n && buf[i] >= '0' && buf[i] <= '9'; i++ {
+		id = id*10 + uint64(buf[i]-'0')
+	}
+	return id
+}
 
 //go:norace
 func hookYield(kind int, obj uintptr, a, b int64) int64 {
@@ -327,6 +366,10 @@ func Yield(kind int, a, b int64) int64 {
 	if s == nil || !s.running {
 		return 0
 	}
+	if simsync.SpawnsGoroutines && (s.cur == nil || curGID() != s.cur.gid) {
+		foreign++
+		return 0 // a goroutine the simulator does not schedule
+	}
 	return s.yield(kind, 0, a, b)
 }
 
@@ -337,6 +380,9 @@ func Yield(kind int, a, b int64) int64 {
 // shadow call stack is not unwound by a recovered panic, so re-using such a
 // goroutine would leak shadow frames (and garble later reports).
 func (t *thread) loop() {
+	if simsync.SpawnsGoroutines {
+		setGID(t, curGID())
+	}
 	for {
 		// Wait for the scheduler to assign a run (raw read: no happens-before).
 		rawRead(t.rfd, unsafe.Pointer(&t.rep[0]), 9)
@@ -372,6 +418,9 @@ func (t *thread) runBody(j *job) (clean bool) {
 
 //go:norace
 func setDying(t *thread, v bool) { t.dying = v }
+
+//go:norace
+func setGID(t *thread, id uint64) { t.gid = id }
 
 //go:norace
 func isDying(t *thread) bool { return t.dying }
